@@ -9,7 +9,8 @@ from ..astutil import (
     call_name, calls_in, dotted, guard_atoms, name_stores, names_in, unparse, walk_local,
 )
 from ..report import Registry, sub, chain
-from ._helpers_rules_c import _ann_class, call_nodes, calls_ending, kw_or_pos
+from ._helpers_rules_c import _ann_class, call_nodes, calls_ending, kw_or_pos, own_calls
+from ._helpers_rob_f1 import FlowResolver, Inliner, ev3, truths
 
 R = Registry(
     "C29",
@@ -118,13 +119,39 @@ def _has_member(ix, cls, name) -> bool:
     return False
 
 
-def _unwrap_target(e):
-    """targets of greenlet_spawn's first argument: handles cast(T, x) and `a if c else b`."""
+def _unwrap_target(e, fnode=None, depth=0):
+    """targets of greenlet_spawn's first argument: handles cast(T, x), `a if c else b` and a local that was bound
+    to the target before the call (`fn = a if c else b` / `if c: fn = a else: fn = b`; every binding counts)."""
     if isinstance(e, ast.Call) and (call_name(e) or "").split(".")[-1] == "cast" and len(e.args) == 2:
-        return _unwrap_target(e.args[1])
+        return _unwrap_target(e.args[1], fnode, depth)
     if isinstance(e, ast.IfExp):
-        return _unwrap_target(e.body) + _unwrap_target(e.orelse)
+        return _unwrap_target(e.body, fnode, depth) + _unwrap_target(e.orelse, fnode, depth)
+    if isinstance(e, ast.Name) and e.id != "getattr" and fnode is not None and depth < 4:
+        vals = [v for n, v, _ in name_stores(fnode) if n == e.id]
+        if vals and all(v is not None for v in vals):
+            return [t for v in vals for t in _unwrap_target(v, fnode, depth + 1)]
     return [e]
+
+
+def _flows_from(fnode, exprs):
+    """names whose value can reach one of `exprs`: the names read there, plus -- transitively -- the names read by
+    the bindings of locals among them (`stmt = statement; ...spawn(f, stmt)` forwards `statement`)."""
+    binds = {}
+    for n, v, st in name_stores(fnode):
+        binds.setdefault(n, []).append(v if v is not None else getattr(st, "value", None) or getattr(st, "iter", None))
+    seen = set()
+    todo = set()
+    for e in exprs:
+        todo |= names_in(e)
+    while todo:
+        n = todo.pop()
+        if n in seen:
+            continue
+        seen.add(n)
+        for v in binds.get(n, []):
+            if v is not None:
+                todo |= names_in(v) - seen
+    return seen
 
 
 def _impl(ix, cls, name):
@@ -153,71 +180,79 @@ def r1(ctx):
             if f.key in NOT_A_PROXY:
                 ctx.ok(f.key, "not a proxy: " + NOT_A_PROXY[f.key], nontrivial=False)
                 continue
-            ctx.require(len(spawns) == 1, f"{f.key}: {len(spawns)} greenlet_spawn calls (unknown idiom)")
-            sp = spawns[0]
-            ctx.require(sp.args, f"{f.key}: greenlet_spawn without a target")
+            if len(spawns) > 1:
+                # `x = await spawn(a) if c else await spawn(b)` written as if/else: alternatives, as long as no path
+                # runs two of them
+                g = ctx.cfg(f)
+                at = [g.nodes_containing(c) for c in spawns]
+                ctx.require(all(at), f"{f.key}: greenlet_spawn call not found on the CFG")
+                for i, ns in enumerate(at):
+                    later = g.reachable([b for n in ns for b, _ in g.succ[n]])
+                    ctx.require(not any(set(ms) & later for j, ms in enumerate(at) if j != i),
+                                f"{f.key}: {len(spawns)} greenlet_spawn calls on one path (unknown idiom)")
+            inl = Inliner(f.node)
             problems = []
-            pos_args = list(sp.args[1:])
-            targets = _unwrap_target(sp.args[0])
             attrs = set()
-            sync_methods = []
-            for t in targets:
-                if isinstance(t, ast.Name) and t.id == "getattr" and len(pos_args) == 2 and isinstance(pos_args[1], ast.Constant):
-                    owner = _expr_class(ix, cls, f.node, pos_args[0])
-                    attr = pos_args[1].value
-                    pos_args = []
-                elif isinstance(t, ast.Attribute):
-                    owner = _expr_class(ix, cls, f.node, t.value)
-                    attr = t.attr
-                else:
-                    ctx.error(f"{f.key}: greenlet_spawn target `{unparse(t)[:60]}` is not an attribute of a proxied object")
-                ctx.require(owner is not None, f"{f.key}: cannot determine the sync class behind `{unparse(t)[:60]}`")
-                attrs.add(attr)
-                if not _has_member(ix, owner, attr):
-                    problems.append(f"{owner.name} has no attribute {attr}")
-                m = _impl(ix, owner, attr)
-                if m is not None:
-                    sync_methods.append(m)
+            for sp in spawns:
+                ctx.require(sp.args, f"{f.key}: greenlet_spawn without a target")
+                pos_args = list(sp.args[1:])
+                targets = _unwrap_target(sp.args[0], f.node)
+                sync_methods = []
+                for t in targets:
+                    if isinstance(t, ast.Name) and t.id == "getattr" and len(pos_args) == 2 and isinstance(pos_args[1], ast.Constant):
+                        owner = _expr_class(ix, cls, f.node, pos_args[0])
+                        attr = pos_args[1].value
+                        pos_args = []
+                    elif isinstance(t, ast.Attribute):
+                        owner = _expr_class(ix, cls, f.node, t.value)
+                        attr = t.attr
+                    else:
+                        ctx.error(f"{f.key}: greenlet_spawn target `{unparse(t)[:60]}` is not an attribute of a proxied object")
+                    ctx.require(owner is not None, f"{f.key}: cannot determine the sync class behind `{unparse(t)[:60]}`")
+                    attrs.add(attr)
+                    if not _has_member(ix, owner, attr):
+                        problems.append(f"{owner.name} has no attribute {attr}")
+                    m = _impl(ix, owner, attr)
+                    if m is not None:
+                        sync_methods.append(m)
+                # argument forwarding
+                own_params = [p for p in f.params if p != "self"]
+                used = _flows_from(f.node, list(sp.args[1:]) + [k.value for k in sp.keywords])
+                # a parameter that the sync method also has (same name) must reach it; parameters of the async
+                # protocol only (e.g. is_ctxmanager) are not the sync method's business
+                sync_params = set()
+                for m in sync_methods:
+                    sync_params |= {p for p in m.params if p != "self"}
+                dropped = [p for p in own_params if p in sync_params and p not in used]
+                if dropped:
+                    problems.append(f"parameter(s) {dropped} are not forwarded to the sync method")
+                for m in sync_methods:
+                    a = m.node.args
+                    sp_pos = [x.arg for x in a.posonlyargs + a.args][1:]
+                    kwnames = set(sp_pos) | {x.arg for x in a.kwonlyargs}
+                    for i, arg in enumerate(pos_args):
+                        if isinstance(arg, ast.Starred):
+                            if a.vararg is None:
+                                problems.append(f"*{unparse(arg.value)} forwarded but {m.cls.name}.{m.name} takes no *args")
+                            break
+                        arg = inl(arg)   # a once-bound local standing for a parameter is that parameter
+                        if isinstance(arg, ast.Name) and arg.id in own_params:
+                            if i >= len(sp_pos):
+                                if a.vararg is None:
+                                    problems.append(f"too many positional arguments for {m.cls.name}.{m.name}")
+                            elif sp_pos[i] != arg.id:
+                                problems.append(f"positional argument {arg.id} lands in parameter {sp_pos[i]} of {m.cls.name}.{m.name}")
+                    for k in sp.keywords:
+                        if k.arg is None or k.arg in ENGINE_OPTS:
+                            continue
+                        if k.arg not in kwnames and a.kwarg is None:
+                            problems.append(f"keyword {k.arg} is not a parameter of {m.cls.name}.{m.name}")
+                        if k.arg in own_params and k.arg not in _flows_from(f.node, [k.value]):
+                            problems.append(f"keyword {k.arg} is fed from {unparse(k.value)[:40]} instead of the parameter of the same name")
             allowed = ALIASES.get(f.key, ({name}, ""))[0]
             if not attrs <= allowed:
                 problems.append(f"runs {sorted(attrs)} of the sync object, expected {sorted(allowed)}")
-            # argument forwarding
-            own_params = [p for p in f.params if p != "self"]
-            used = set()
-            for a in sp.args[1:]:
-                used |= names_in(a)
-            for k in sp.keywords:
-                used |= names_in(k.value)
-            # a parameter that the sync method also has (same name) must reach it; parameters of the async
-            # protocol only (e.g. is_ctxmanager) are not the sync method's business
-            sync_params = set()
-            for m in sync_methods:
-                sync_params |= {p for p in m.params if p != "self"}
-            dropped = [p for p in own_params if p in sync_params and p not in used]
-            if dropped:
-                problems.append(f"parameter(s) {dropped} are not forwarded to the sync method")
-            for m in sync_methods:
-                a = m.node.args
-                sp_pos = [x.arg for x in a.posonlyargs + a.args][1:]
-                kwnames = set(sp_pos) | {x.arg for x in a.kwonlyargs}
-                for i, arg in enumerate(pos_args):
-                    if isinstance(arg, ast.Starred):
-                        if a.vararg is None:
-                            problems.append(f"*{unparse(arg.value)} forwarded but {m.cls.name}.{m.name} takes no *args")
-                        break
-                    if isinstance(arg, ast.Name) and arg.id in own_params:
-                        if i >= len(sp_pos):
-                            if a.vararg is None:
-                                problems.append(f"too many positional arguments for {m.cls.name}.{m.name}")
-                        elif sp_pos[i] != arg.id:
-                            problems.append(f"positional argument {arg.id} lands in parameter {sp_pos[i]} of {m.cls.name}.{m.name}")
-                for k in sp.keywords:
-                    if k.arg is None or k.arg in ENGINE_OPTS:
-                        continue
-                    if k.arg not in kwnames and a.kwarg is None:
-                        problems.append(f"keyword {k.arg} is not a parameter of {m.cls.name}.{m.name}")
-                    if k.arg in own_params and k.arg not in names_in(k.value):
-                        problems.append(f"keyword {k.arg} is fed from {unparse(k.value)[:40]} instead of the parameter of the same name")
+            problems = list(dict.fromkeys(problems))
             ctx.check(not problems, f.key, "; ".join(problems), f"-> {'/'.join(sorted(attrs))}", f.loc)
     # marker decorators
     for rel in (AENG, ASES, ASCO):
@@ -358,6 +393,21 @@ def r3(ctx):
 
 
 # ---------------------------------------------------------------------- C29-R4
+def _io_nodes(ctx, f, g):
+    """CFG nodes of `_reset` that talk to the driver: `<dialect>.do_rollback/do_commit(...)` directly, or a call of a
+    method of the same class (one level) that does."""
+    io = set(calls_ending(g, "do_rollback", "do_commit"))
+    for n in g.nodes:
+        for c in own_calls(n):
+            nm = call_name(c) or ""
+            if nm.startswith("self.") and nm.count(".") == 1 and f.cls is not None:
+                h = ctx.index.resolve_method(f.cls, nm[5:])
+                if h is not None and h.node is not f.node and calls_ending(ctx.cfg(h), "do_rollback", "do_commit"):
+                    ctx.functions_analysed.add(h.key)
+                    io.add(n.id)
+    return sorted(io)
+
+
 @R.rule("C29-R4", floor=4, template="T-GUARD",
         desc="garbage-collection clean-up of an async connection does no driver IO: _reset skips "
              "rollback/commit unless asyncio_safe; _finalize_fairy passes asyncio_safe=not gc, detaches under gc, "
@@ -365,86 +415,89 @@ def r3(ctx):
 def r4(ctx):
     f = ctx.func(f"{POOL}::_ConnectionFairy._reset")
     g = ctx.cfg(f)
-    io = calls_ending(g, "do_rollback", "do_commit")
+    io = _io_nodes(ctx, f, g)
     ctx.require(io, "no do_rollback/do_commit in _reset")
-    bad = [n for n in io if ("asyncio_safe", True) not in guard_atoms(g.edge_guards(n))]
+    inl = Inliner(f.node, allow_calls=False)
+    bad = [n for n in io if ("asyncio_safe", True) not in inl.atoms(g.edge_guards(n))]
     ctx.check(not bad, f.key + ":io-only-when-asyncio-safe",
               "_reset can call do_rollback()/do_commit() although asyncio_safe is False (driver IO from the garbage "
               "collector, outside any greenlet / event loop context)",
               "rollback/commit dominated by `asyncio_safe`", f.loc)
+    # _finalize_fairy: what the flags handed to _reset() / _close_connection() *are* is decided per scenario
+    # (async dialect or not, called by the garbage collector or not, dialect can terminate or not): branches the
+    # scenario rules out are cut, every local is replaced by its reaching definition, the rest is evaluated.  No
+    # assumption on how the flags are named, where they are assigned (if/else in either order, defaults then
+    # override, nested ifs, conditional expressions) or how the dialect is reached (`pool._dialect`, a local).
     ff = ctx.func(f"{POOL}::_finalize_fairy")
-    pm = ff.module.parents()
-    from ..astutil import lexical_guards
-    stores = name_stores(ff.node)
-    gc_names = set()
-    for n, v, _ in stores:
-        if isinstance(v, ast.Compare) and len(v.ops) == 1 and isinstance(v.ops[0], ast.IsNot) \
-                and isinstance(v.left, ast.Name) and v.left.id == ff.params[3] and isinstance(v.comparators[0], ast.Constant):
-            gc_names.add(n)
-    ctx.require(gc_names, "_finalize_fairy no longer derives a gc-cleanup flag from `ref is not None`")
-    async_names = {n for n, v, _ in stores if v is not None and (dotted(v) or "").endswith("_dialect.is_async")}
-    ctx.require(async_names, "_finalize_fairy no longer reads pool._dialect.is_async")
-    resets = [c for c in calls_in(ff.node) if (call_name(c) or "").endswith("._reset")]
-    ctx.require(len(resets) == 1, "no unique ._reset() call in _finalize_fairy")
-    rc = resets[0]
+    ctx.require(len(ff.params) > 3, "_finalize_fairy lost its `ref` parameter")
+    ref = ff.params[3]
 
-    def async_binding(var):
-        """value bound to `var` on the async-dialect branch"""
-        out = []
-        for n, v, st in stores:
-            if n != var or v is None:
-                continue
-            atoms = guard_atoms(lexical_guards(pm, st, stop=ff.node))
-            if any(p and a in async_names for a, p in atoms):
-                out.append(v)
-        return out
+    def canon(txt):
+        if txt == f"{ref} is None":
+            return ("GC", False)
+        last = txt.split(".")[-1]
+        if "." in txt and last == "is_async":
+            return ("ASYNC", True)
+        if "." in txt and last == "has_terminate":
+            return ("TERM", True)
+        return None
+    g = ctx.cfg(ff)
+    fr = FlowResolver(g, ff.node, canon)
+    resets = [(n.id, c) for n in g.nodes if not n.copy for c in own_calls(n) if (call_name(c) or "").endswith("._reset")]
+    ctx.require(resets, "no ._reset() call in _finalize_fairy")
+    closes = [(n.id, c) for n in g.nodes if not n.copy for c in own_calls(n) if (call_name(c) or "").endswith("_close_connection")]
+    ctx.require(closes, "no pool._close_connection() in _finalize_fairy")
+    _sc = {}
 
-    def multi_binding(var):
-        # tuple / chained assignment `a = b = True` is reported by name_stores with value None for tuple targets;
-        # chained targets share the value
-        return [v for n, v, st in stores if n == var]
+    def scenario(**fixed):
+        k = tuple(sorted(fixed.items()))
+        if k not in _sc:
+            _sc[k] = fr.scenario(**fixed)
+        return _sc[k]
 
-    safe = kw_or_pos(rc, "asyncio_safe", 3)
-    ok = isinstance(safe, ast.Name)
-    if ok:
-        vals = async_binding(safe.id)
-        ok = bool(vals) and all(
-            isinstance(v, ast.UnaryOp) and isinstance(v.op, ast.Not) and isinstance(v.operand, ast.Name) and v.operand.id in gc_names
-            for v in vals)
-    ctx.check(ok, ff.key + ":asyncio-safe-flag",
-              "for an async dialect _reset() is not told asyncio_safe = not <gc clean-up>: a garbage-collected "
-              "connection would be rolled back from the collector",
+    def values(node, expr, **fixed):
+        """possible truth values of `expr` at `node` in the scenario; empty when the node is not reached there"""
+        sc = scenario(**fixed)
+        if node not in sc.live:
+            return set()
+        ctx.require(expr is not None, "_finalize_fairy: a flag argument of _reset()/_close_connection() is not passed")
+        vals = truths(sc.resolve(expr, node), fixed, canon)
+        ctx.require(None not in vals, f"_finalize_fairy: cannot evaluate `{unparse(expr)}` (resolved: `{unparse(sc.resolve(expr, node))[:120]}`)")
+        return vals
+
+    safe_bad, detach_bad = [], []
+    for n, rc in resets:
+        safe = kw_or_pos(rc, "asyncio_safe", 3)
+        term = kw_or_pos(rc, "terminate_only", 2)
+        for tv in (True, False):
+            if not values(n, safe, ASYNC=True, GC=True, TERM=tv) <= {False}:
+                safe_bad.append("called by the garbage collector")
+            if not values(n, safe, ASYNC=True, GC=False, TERM=tv) <= {True}:
+                safe_bad.append("called for an explicit close")
+            if not values(n, term, ASYNC=True, GC=True, TERM=tv) <= {True}:
+                detach_bad.append(tv)
+    ctx.check(not safe_bad, ff.key + ":asyncio-safe-flag",
+              "for an async dialect _reset() is not told asyncio_safe = not <gc clean-up> "
+              f"(wrong when {' / '.join(sorted(set(safe_bad)))}): a garbage-collected connection would be rolled back from the collector",
               "asyncio_safe = not is_gc_cleanup on the async branch", ff.loc)
-    term = kw_or_pos(rc, "terminate_only", 2)
-    ok = isinstance(term, ast.Name)
-    if ok:
-        vals = async_binding(term.id)
-        ok = bool(vals) and all(
-            isinstance(v, ast.BoolOp) and isinstance(v.op, ast.Or) and any(isinstance(x, ast.Name) and x.id in gc_names for x in v.values)
-            for v in vals)
-    ctx.check(ok, ff.key + ":detach-under-gc",
+    ctx.check(not detach_bad, ff.key + ":detach-under-gc",
               "for an async dialect a garbage-collected connection is not detached (terminate_only): it would be "
               "returned to the pool without having been reset",
               "detach = record is None or is_gc_cleanup on the async branch", ff.loc)
-    g = ctx.cfg(ff)
-    closing = calls_ending(g, "_close_connection")
-    ctx.require(closing, "no pool._close_connection() in _finalize_fairy")
-    ok = True
-    for n in closing:
-        c = [c for c in calls_in(g.nodes[n].stmt) if (call_name(c) or "").endswith("_close_connection")][0]
-        flags = {a for a, p in guard_atoms(g.edge_guards(n)) if p and a.isidentifier()}
-        can = [v for fl in flags for v in async_binding(fl)]
-        can_ok = any(isinstance(v, ast.BoolOp) and isinstance(v.op, ast.Or) and any((dotted(x) or "").endswith("has_terminate") for x in v.values)
-                     and all((dotted(x) or "").endswith("has_terminate") or (isinstance(x, ast.UnaryOp) and (dotted(x.operand) or "").endswith("is_async"))
-                             for x in v.values) for v in can)
+    problems = []
+    for n, c in closes:
         t = kw_or_pos(c, "terminate")
-        t_ok = isinstance(t, ast.Name) and any(
-            isinstance(v, ast.BoolOp) and isinstance(v.op, ast.And)
-            and {(dotted(x) or "").split(".")[-1] for x in v.values} == {"is_async", "has_terminate"} for v in async_binding(t.id))
-        ok = ok and can_ok and t_ok
-    ctx.check(ok, ff.key + ":terminate-only",
+        for gc in (True, False):
+            if n in scenario(ASYNC=True, TERM=False, GC=gc).live:
+                problems.append("an async connection is closed although the dialect cannot terminate (close() would await)")
+            if not values(n, t, ASYNC=True, TERM=True, GC=gc) <= {True}:
+                problems.append("an async connection is closed with the awaiting close() instead of terminate")
+            for tv in (True, False):
+                if not values(n, t, ASYNC=False, TERM=tv, GC=gc) <= {False}:
+                    problems.append("a sync connection is terminated instead of closed")
+    ctx.check(not problems, ff.key + ":terminate-only",
               "a detached async connection can be closed with the awaiting close() (or closed although the dialect "
-              "cannot terminate) instead of terminate-only",
+              "cannot terminate) instead of terminate-only: " + "; ".join(sorted(set(problems))),
               "close only if (not is_async or has_terminate); terminate = is_async and has_terminate", ff.loc)
 
 
@@ -778,3 +831,95 @@ R.mutant("benign-sync-scalars-view-bound-to-local", RES,
 R.mutant("benign-sync-mappings-view-copies-state-afterwards", RES,
          sub("        return MappingResult(self)\n",
              "        view = MappingResult(self.freeze()())\n        view._unique_filter_state = self._unique_filter_state\n        view._metadata = self._metadata\n        return view\n"), None)
+
+# --- robustify round (rob-F1): stored benign refactors rfF_4..6 (+ rfA_11) and their neighbourhood
+_TX_START = ("        self.sync_transaction = self._assign_proxied(\n            await greenlet_spawn(\n"
+             "                self.connection._proxied.begin_nested\n                if self.nested\n"
+             "                else self.connection._proxied.begin\n            )\n        )\n")
+R.mutant("benign-rfF5-transaction-start-target-in-local-if-else", AENG,
+         sub(_TX_START, "        begin_fn: Callable[[], Transaction]\n        if self.nested:\n            begin_fn = self.connection._proxied.begin_nested\n"
+                        "        else:\n            begin_fn = self.connection._proxied.begin\n\n"
+                        "        sync_transaction = await greenlet_spawn(begin_fn)\n"
+                        "        self.sync_transaction = self._assign_proxied(sync_transaction)\n"), None)
+R.mutant("transaction-start-local-target-runs-commit", AENG,
+         sub(_TX_START, "        if self.nested:\n            begin_fn = self.connection._proxied.begin_nested\n"
+                        "        else:\n            begin_fn = self.connection._proxied.commit\n\n"
+                        "        sync_transaction = await greenlet_spawn(begin_fn)\n"
+                        "        self.sync_transaction = self._assign_proxied(sync_transaction)\n"), "C29-R1")
+R.mutant("benign-transaction-start-two-exclusive-spawns", AENG,
+         sub(_TX_START, "        conn = self.connection._proxied\n        if self.nested:\n            sync_transaction = await greenlet_spawn(conn.begin_nested)\n"
+                        "        else:\n            sync_transaction = await greenlet_spawn(conn.begin)\n"
+                        "        self.sync_transaction = self._assign_proxied(sync_transaction)\n"), None)
+R.mutant("transaction-start-two-spawns-one-wrong", AENG,
+         sub(_TX_START, "        conn = self.connection._proxied\n        if self.nested:\n            sync_transaction = await greenlet_spawn(conn.begin_nested)\n"
+                        "        else:\n            sync_transaction = await greenlet_spawn(conn.close)\n"
+                        "        self.sync_transaction = self._assign_proxied(sync_transaction)\n"), "C29-R1")
+R.mutant("benign-rfF5-connection-start-unnested-await", AENG,
+         sub("        self.sync_connection = self._assign_proxied(\n            await greenlet_spawn(self.sync_engine.connect)\n        )\n",
+             "        sync_connection = await greenlet_spawn(self.sync_engine.connect)\n        self.sync_connection = self._assign_proxied(sync_connection)\n"), None)
+R.mutant("benign-session-flush-argument-through-local", ASES,
+         sub("        await greenlet_spawn(self.sync_session.flush, objects=objects)",
+             "        to_flush = objects\n        await greenlet_spawn(self.sync_session.flush, objects=to_flush)"), None)
+R.mutant("benign-async-commit-bound-method-in-local", AENG,
+         sub("        await greenlet_spawn(self._proxied.commit)\n\n    async def rollback(self) -> None:\n        \"\"\"Roll back the transaction that is currently in progress.",
+             "        commit = self._proxied.commit\n        await greenlet_spawn(commit)\n\n    async def rollback(self) -> None:\n        \"\"\"Roll back the transaction that is currently in progress."), None)
+R.mutant("benign-exec-driver-sql-argument-through-local", AENG,
+         sub("        result = await greenlet_spawn(\n            self._proxied.exec_driver_sql,\n            statement,\n            parameters,\n",
+             "        params = parameters\n        result = await greenlet_spawn(\n            self._proxied.exec_driver_sql,\n            statement,\n            params,\n"), None)
+R.mutant("exec-driver-sql-local-argument-lands-in-wrong-slot", AENG,
+         sub("        result = await greenlet_spawn(\n            self._proxied.exec_driver_sql,\n            statement,\n            parameters,\n            execution_options,\n",
+             "        params = parameters\n        result = await greenlet_spawn(\n            self._proxied.exec_driver_sql,\n            statement,\n            execution_options,\n            params,\n"), "C29-R1")
+_FF_FLAGS = ("    dont_restore_gced = pool._dialect.is_async\n\n    if dont_restore_gced:\n"
+             "        detach = connection_record is None or is_gc_cleanup\n        can_manipulate_connection = not is_gc_cleanup\n"
+             "        can_close_or_terminate_connection = (\n            not pool._dialect.is_async or pool._dialect.has_terminate\n        )\n"
+             "        requires_terminate_for_close = (\n            pool._dialect.is_async and pool._dialect.has_terminate\n        )\n\n"
+             "    else:\n        detach = connection_record is None\n"
+             "        can_manipulate_connection = can_close_or_terminate_connection = True\n        requires_terminate_for_close = False\n")
+R.mutant("benign-rfF6-finalize-dialect-alias", POOL,
+         sub(_FF_FLAGS, _FF_FLAGS.replace("    dont_restore_gced = pool._dialect.is_async\n", "    dialect = pool._dialect\n\n    dont_restore_gced = dialect.is_async\n")
+             .replace("not pool._dialect.is_async or pool._dialect.has_terminate", "not dialect.is_async or dialect.has_terminate")
+             .replace("pool._dialect.is_async and pool._dialect.has_terminate", "dialect.is_async and dialect.has_terminate")), None)
+R.mutant("benign-rfA11-finalize-branches-inverted", POOL,
+         sub(_FF_FLAGS, "    dont_restore_gced = pool._dialect.is_async\n\n    if not dont_restore_gced:\n        detach = connection_record is None\n"
+                        "        can_manipulate_connection = True\n        can_close_or_terminate_connection = True\n        requires_terminate_for_close = False\n\n"
+                        "    else:\n        detach = connection_record is None or is_gc_cleanup\n        can_manipulate_connection = not is_gc_cleanup\n"
+                        "        can_close_or_terminate_connection = (\n            not pool._dialect.is_async or pool._dialect.has_terminate\n        )\n"
+                        "        requires_terminate_for_close = (\n            pool._dialect.is_async and pool._dialect.has_terminate\n        )\n"), None)
+R.mutant("benign-finalize-defaults-then-override-no-flag-local", POOL,
+         sub(_FF_FLAGS, "    dont_restore_gced = pool._dialect.is_async\n\n    detach = connection_record is None\n    can_manipulate_connection = True\n"
+                        "    can_close_or_terminate_connection = True\n    requires_terminate_for_close = False\n"
+                        "    if pool._dialect.is_async:\n        detach = detach or is_gc_cleanup\n        can_manipulate_connection = not is_gc_cleanup\n"
+                        "        can_close_or_terminate_connection = pool._dialect.has_terminate\n"
+                        "        requires_terminate_for_close = pool._dialect.has_terminate\n"), None)
+R.mutant("benign-finalize-flags-as-conditional-expressions", POOL,
+         sub(_FF_FLAGS, "    dont_restore_gced = pool._dialect.is_async\n\n"
+                        "    detach = (connection_record is None or is_gc_cleanup) if dont_restore_gced else connection_record is None\n"
+                        "    can_manipulate_connection = not (dont_restore_gced and is_gc_cleanup)\n"
+                        "    can_close_or_terminate_connection = not (pool._dialect.is_async and not pool._dialect.has_terminate)\n"
+                        "    requires_terminate_for_close = dont_restore_gced and pool._dialect.has_terminate\n"), None)
+R.mutant("benign-finalize-nested-gc-branches", POOL,
+         sub(_FF_FLAGS, "    dont_restore_gced = pool._dialect.is_async\n\n    if dont_restore_gced:\n        if is_gc_cleanup:\n            detach = True\n"
+                        "            can_manipulate_connection = False\n        else:\n            detach = connection_record is None\n"
+                        "            can_manipulate_connection = True\n        can_close_or_terminate_connection = pool._dialect.has_terminate\n"
+                        "        requires_terminate_for_close = can_close_or_terminate_connection\n"
+                        "    else:\n        detach = connection_record is None\n"
+                        "        can_manipulate_connection = can_close_or_terminate_connection = True\n        requires_terminate_for_close = False\n"), None)
+R.mutant("finalize-defaults-then-override-forgets-asyncio-safe", POOL,
+         sub(_FF_FLAGS, "    dont_restore_gced = pool._dialect.is_async\n\n    detach = connection_record is None\n    can_manipulate_connection = True\n"
+                        "    can_close_or_terminate_connection = True\n    requires_terminate_for_close = False\n"
+                        "    if pool._dialect.is_async:\n        detach = detach or is_gc_cleanup\n"
+                        "        can_close_or_terminate_connection = pool._dialect.has_terminate\n"
+                        "        requires_terminate_for_close = pool._dialect.has_terminate\n"), "C29-R4")
+R.mutant("finalize-nested-gc-branches-detach-swapped", POOL,
+         sub(_FF_FLAGS, "    dont_restore_gced = pool._dialect.is_async\n\n    if dont_restore_gced:\n        if not is_gc_cleanup:\n            detach = True\n"
+                        "            can_manipulate_connection = True\n        else:\n            detach = connection_record is None\n"
+                        "            can_manipulate_connection = False\n        can_close_or_terminate_connection = pool._dialect.has_terminate\n"
+                        "        requires_terminate_for_close = can_close_or_terminate_connection\n"
+                        "    else:\n        detach = connection_record is None\n"
+                        "        can_manipulate_connection = can_close_or_terminate_connection = True\n        requires_terminate_for_close = False\n"), "C29-R4")
+R.mutant("finalize-close-allowed-without-terminate", POOL,
+         sub("        can_close_or_terminate_connection = (\n            not pool._dialect.is_async or pool._dialect.has_terminate\n        )\n",
+             "        can_close_or_terminate_connection = True\n"), "C29-R4")
+R.mutant("benign-reset-asyncio-safe-wraps-io-instead-of-early-return", POOL,
+         sub("        if not asyncio_safe:\n            return\n\n        if pool._reset_on_return is reset_rollback:",
+             "        driver_io_allowed = asyncio_safe\n        if not driver_io_allowed:\n            return\n\n        if pool._reset_on_return is reset_rollback:"), None)
